@@ -169,6 +169,31 @@ fn add_counters(a: &mut Counters, b: &Counters) {
     a.bytes_moved += b.bytes_moved;
 }
 
+/// Counterfactual replay: the same case with the faults of the violating step removed (planned
+/// refusals, callback panic, giant size argument). If the same invariant is still violated at that
+/// step, the fault did not cause it.
+fn fault_is_causal(case: &Case, v: &Violation, opts: &RunOpts) -> bool {
+    let mut c = case.clone();
+    if v.step >= c.steps.len() {
+        return true;
+    }
+    c.steps.truncate(v.step + 1);
+    c.fail_run_req.clear();
+    let st = &mut c.steps[v.step];
+    st.fail_req.clear();
+    st.op.set_callback_panic_at(None);
+    match &mut st.op {
+        Op::Reserve { n, .. } | Op::WithCapacity { n, .. } | Op::ShrinkTo { n, .. } => *n = (*n).min(8),
+        Op::Extend { hint, .. } | Op::Collect { hint, .. } => *hint = Hint::Honest,
+        _ => {}
+    }
+    let o = RunOpts { own: opts.own.clone(), deep_c17: opts.deep_c17, record_counts: false };
+    match shrink::run_explicit(&c, &o).violation {
+        Some(v2) => !(v2.step == v.step && v2.invariant == v.invariant),
+        None => true,
+    }
+}
+
 pub struct Worker<'a> {
     pub spec: &'a WorkSpec,
     pub agg: Agg,
@@ -221,7 +246,15 @@ impl<'a> Worker<'a> {
                 "faults_fired_in_this_run": rep.stats.counters.faults(), "callback_panics_fired_in_this_run": rep.stats.callback_panics,
             }));
         }
-        if let Some(v) = &rep.violation {
+        // a contextual tag (this property's fault merely happened to be present in the step) is
+        // kept only if taking the fault away makes the violation disappear
+        let mut violation = rep.violation.clone();
+        if let Some(v) = violation.as_mut() {
+            if v.ctx.iter().any(|p| p == prop) && !fault_is_causal(&case(), v, opts) {
+                v.props.retain(|p| p != prop);
+            }
+        }
+        if let Some(v) = &violation {
             if v.has_prop(prop) {
                 self.agg.violating += 1;
                 let class = v.class();
@@ -506,6 +539,7 @@ pub fn c12_params(thorough: bool) -> Vec<(usize, char, usize, HeapCfg)> {
 pub fn push_loop(start: usize, ch: char, n: usize, hc: &HeapCfg) -> Result<LoopStats, Violation> {
     let mk = |props: &[&str], inv: &str, step: usize, detail: String| Violation {
         props: props.iter().map(|s| s.to_string()).collect(),
+        ctx: Vec::new(),
         invariant: inv.into(),
         step,
         op: "push".into(),
